@@ -70,7 +70,8 @@ def refErr : List Char := ['#', 'R', 'E', 'F', '!']
 def printA1 (pre : List Char) (ctxRow ctxCol : Int) (r : PRef) (fullRow fullCol : Bool) : List Char :=
   let row := if r.absRow then r.row else r.row + ctxRow
   let col := if r.absCol then r.column else r.column + ctxCol
-  if row < 1 then refErr else
+  -- after fix F12b: `if !(1..=LAST_ROW).contains(&row)`
+  if row < 1 ∨ row > (LAST_ROW : Int) then refErr else
   match numberToColumn col with
   | none => refErr
   | some s =>
